@@ -338,7 +338,8 @@ def check_property(pid, tier, seed):
         r = run_mc_job(j)
         results_mc.append(r)
         log("(A) %s: %d generated / %d distinct, %.0fs%s%s" % (j["cfg"], r["generated"], r["distinct"], r["wall"],
-            " [cached]" if r.get("cached") else "", " VIOLATED " + str(r["violated"]) if r["violated"] else ""))
+            " [cached]" if r.get("cached") else "",
+            (" known-bad variant refuted as expected (%s)" % r["violated"] if j.get("expect_violation") else " model invariant fails: " + str(r["violated"])) if r["violated"] else ""))
     # ---- (B)/(C) traces in parallel
     with cf.ThreadPoolExecutor(max_workers=max(2, NCPU // 2)) as ex:
         for r in ex.map(run_trace_job, plan["traces"]):
